@@ -187,7 +187,7 @@ def szfail(spec, sc):
         return ()
     if k in ("int", "float", "flag", "computed", "pass", "check", "index", "bit", "nibble", "octet"):
         return None
-    if k in ("bytes", "pstr", "padding", "bits", "fixedsized", "padded"):
+    if k in ("bytes", "pstr", "padding", "bits", "fixedsized", "padded", "bint"):
         ok, v = ev(spec[1])
         if not ok:
             return ()
